@@ -110,6 +110,21 @@ CHECKS.update({
     ),
 })
 
+CHECKS.update({
+    "C09": (
+        "chk-canon", EX, "bounded-exhaustive enumeration: every ordered selection of keys from a 15-key set (all subsets in every permutation) and three exhaustive number families, against an independent RFC 8785 reference",
+        "Keys: every ordered selection of up to 5 (quick) / 6 (thorough) distinct keys out of 15 - the set contains U+E000, U+FFFF, U+10000, U+10FFFF and mixed keys, i.e. the region where UTF-16 and code-point order differ - flat, object-in-object and object-in-array. Numbers: every JSON number spelling of length <= 7 / <= 8 over 0 1 2 5 9 - . e E +; for every double m*2^e with m in 16 (quick) / ~70 (thorough) mantissa patterns and every binary exponent, the exact decimal expansion of the double, of the midpoint to its successor and of the midpoint +-1 unit in the last place (up to ~770 digits); the notation thresholds and RFC 8785 Appendix B. canonicalize + compact_print must equal R-canon byte for byte.",
+        "R-canon = std's correctly rounded str::parse::<f64> + std's shortest digits + ECMAScript's round-half-even tie rule via an exact big-integer expansion; self-checked against Appendix B and against ryu-js on every structured double. Long decimals outside the structured family are not covered.",
+        "4/C09",
+    ),
+    "C10": (
+        "chk-canon", EX, "bounded-exhaustive enumeration of equivalence classes of documents (all member permutations, exact number respellings by a rewriting system, escape spellings, whitespace) with byte-identical canonical output required",
+        "Every permutation of every key set of up to 5 / 6 keys against the sorted selection; every exact respelling (exponent shift, trailing zeros, e/E, +, positional forms) of every number spelling of length <= 6 / <= 7; every pair of 12 escapable characters in all their escape spellings under four whitespace variants; on every value: second application is the identity, nothing but order and number spelling changes (numbers compared as doubles), every object stays queryable by key with a well-formed index (hook H1).",
+        "The rewriting system is checked to be value-preserving with std's parser on every respelling (a failure is a machinery error).",
+        "4/C10",
+    ),
+})
+
 NOT_YET = {}
 
 props = [json.loads(l) for l in open(f"{root}/properties.jsonl")]
